@@ -46,7 +46,7 @@ func c09(c *Ctx) {
 	rm := p.PlainCalls("litefs.OS.Remove")
 	maxTX := "ltx.ParseFilename(io/fs.DirEntry.Name(" + ents + "[@@]))#1"
 	c.GuardedPaths("retention/decision", er, rm, [][]*Guard{
-		{GP("(@@ == (builtin.len("+ents+") - 1))", false)},
+		{GP("(@@ == (builtin.len("+ents+") - 1))", false), GP("((builtin.len("+ents+") - 1) == @@)", false)},
 		{GP("(nil == p0.store.BackupClient)", true), GP("("+maxTX+" < litefs.(*DB).HWM(p0))", true)},
 		{GP("time.(Time).Before(io/fs.FileInfo.ModTime(io/fs.DirEntry.Info("+ents+"[@@])#0), p2)", true)},
 		{GP("(ltx.ParseFilename(io/fs.DirEntry.Name("+ents+"[@@]))#2 == nil)", true)},
